@@ -983,6 +983,44 @@ def check_plain_against_model(ex: Exec, plan: Plan, res):
     return fails
 
 
+def check_midx_self(repo, ex):
+    """A multi-pack-index that dulwich loads and that is not stale answers its own lookup API like the pack indexes it
+    was built from: every object it lists is found where the pack's own index has it, ids it does not list are absent.
+    (The object store falls back to the per-pack scan on a miss, so a wrong 'absent' never shows in store answers.)"""
+    s = repo.object_store
+    mo = outcome(lambda: s.get_midx())
+    if mo[0] != "ok" or mo[1] is None:
+        return []
+    m = mo[1]
+    fails = []
+    blame = _writer(ex, "midx") or "none"
+    by_pack = {}
+    for p in s.packs:
+        by_pack[os.path.basename(p._basename) if hasattr(p, "_basename") else str(p)] = p
+    listed = outcome(lambda: [(bytes(sha), pn, off) for sha, pn, off in m.iterentries()])
+    if listed[0] != "ok":
+        return []
+    ids = set()
+    for raw, pn, off in listed[1]:
+        ids.add(raw)
+        got = outcome(lambda: m.object_offset(raw))
+        if got[:2] != ("ok", (pn, off)):
+            fails.append((f"C14:midx-self:{blame}:listed-object-not-found", f"the multi-pack-index lists {raw.hex()} at ({pn!r}, {off}) but object_offset() -> {_short(got)}"))
+            break
+        inn = outcome(lambda: raw in m)
+        if inn[:2] != ("ok", True):
+            fails.append((f"C14:midx-self:{blame}:listed-object-not-contained", f"the multi-pack-index lists {raw.hex()} but `in` -> {_short(inn)}"))
+            break
+    if not fails:
+        for probe in (b"\x00" * 20, b"\xff" * 20, b"\x00" * 19 + b"\x01", b"\xff" * 19 + b"\xfe"):
+            if probe not in ids:
+                got = outcome(lambda: m.object_offset(probe))
+                if got[:2] != ("ok", None):
+                    fails.append((f"C14:midx-self:{blame}:absent-id-found", f"object_offset({probe.hex()}) -> {_short(got)} for an id the multi-pack-index does not list"))
+                    break
+    return fails
+
+
 def check_peeled_cache(ex: Exec, plan: Plan, variant, res):
     """refs.get_peeled: None means 'not cached'; any other answer must be the true peeled value."""
     fails = []
@@ -1054,6 +1092,10 @@ def evaluate(scratch_root: str, case) -> Result:
         try:
             fresh = run_battery(ra, plan)
             loaded = _loaded(ra, present)
+            for b, m in check_midx_self(ra, ex):
+                if (b,) not in seen:
+                    seen.add((b,))
+                    out.fails.append((b, m))
             _label_bitmap_use(out, "fresh", ra, plan)
         finally:
             ra.close()
